@@ -297,7 +297,16 @@ func one(lg *tlogx.Log, n, h int, indexes []int64, faults []faultT, pub *world.P
 				msg = fmt.Sprintf("panic: %v", e)
 			}
 		}()
-		hashes, err = tlog.TileHashReader(tree, rd).ReadHashes(indexes)
+		ixw, intact := enum.Spare(indexes, int64(-0x5e5e5e), 3)
+		hashes, err = tlog.TileHashReader(tree, rd).ReadHashes(ixw)
+		if !intact() {
+			msg = "ReadHashes wrote into the caller's array behind the end of the index list"
+		}
+		for i := range indexes {
+			if ixw[i] != indexes[i] {
+				msg = "ReadHashes changed the index list it was given"
+			}
+		}
 	}()
 	if msg != "" {
 		return msg, rd, false
